@@ -188,7 +188,7 @@ def role_names(fn):
     return fn
 
 
-def method_cfg(world, cls_qname, name):
+def method_cfg(world, cls_qname, name, inline_also=(), lift_values=False):
     r = world.method(cls_qname, name)
     from .unroll import expand_quantifiers
     from .inline import acopy
@@ -196,7 +196,9 @@ def method_cfg(world, cls_qname, name):
     fn = fq if expand_quantifiers(fq) else r[2]
     fn = role_names(fn)
     fn = normalise(fn, world, LOC, world.cls(cls_qname),
-                   primitives=PRIMITIVES)
+                   primitives=tuple(p for p in PRIMITIVES
+                                    if p not in inline_also),
+                   lift_values=lift_values)
     q = "%s.%s" % (cls_qname, name)
     cfg = gen_cfg(fn, q)
     ys = yields_of(cfg, world, LOC)
